@@ -175,8 +175,8 @@ def run(ctx: Ctx) -> None:
 
     r = ctx.rule("R12.view", "memory table exposes the lower memory")
     f = m.method("BaseCacheMemorySystem", "wordwise_repr", own=True)
-    rets = [n for n in walk_no_nested(f.node) if isinstance(n, ast.Return)]
-    ok = any(isinstance(c.func, ast.Attribute) and ast.unparse(c.func) == f"{f.params[0]}.memory.wordwise_repr" for c in calls_in(f.node))
+    from ..flowspec import signature
+    ok = signature(m, f) == signature(m, f, f"def wordwise_repr({f.params[0]}):\n    return {f.params[0]}.memory.wordwise_repr()\n")
     r.check(ok, "BaseCacheMemorySystem.wordwise_repr", f.loc(), "the memory table is no longer derived from the lower memory's wordwise_repr()")
     # one location, one block: the decomposition works on the 32-bit wrapped address (aliases such as -4 / 0xFFFFFFFC must share a tag)
     from .c03 import addr_rule
